@@ -521,15 +521,36 @@ def check_child_lifecycle(ctx):
     fronts = [e for e in nf.events('call') if (e.get('name') or '').endswith('::front')]
     ctx.check('C05.S1', len(pops) == 1 and len(fronts) == 1 and nf.dominates_ev(fronts[0], pops[0]), nf.name, 'NextFinished:front-pop', nf.loc,
               'NextFinished() reads the front, then pops once')
-    for e in nf.events('ret'):
-        v = deep_resolve(nf, e.get('e'))
-        isnull = const_value(e.get('e')) in (0, None) and 'null' in dstr(e.get('e'))
-        if isnull:
-            ctx.check('C05.S1', fact_holds(nf.facts_at(e), lambda a: 'empty' in dstr(a), True), nf.name, 'NextFinished:null-though-nonempty', nf.where(e),
-                      'null is returned only for an empty queue')
-        else:
-            ctx.check('C05.S1', 'front' in dstr(v) and bool(pops) and nf.ev_reaches(pops[0], e), nf.name, 'NextFinished:returns-other', nf.where(e),
-                      'the subprocess returned is the front element that was popped (%s)' % dstr(v))
+    if len(pops) == 1 and len(fronts) == 1:
+        nonempty = lambda a: 'empty' in dstr(a)
+        ctx.check('C05.S1', fact_holds(nf.facts_at(pops[0]), nonempty, False), nf.name, 'NextFinished:pop-of-empty-queue', nf.where(pops[0]),
+                  'the queue is popped only when it is not empty')
+        # what is returned: a null constant, the front element, or a variable every store of which is one of the two
+        def front_or_null(d, depth=0):
+            d = strip(d)
+            if not isinstance(d, dict):
+                return False
+            if (const_value(d) in (0, None) and 'null' in dstr(d)) or const_value(d) == 0:
+                return 'null'
+            if d.get('k') == 'call' and (d.get('name') or '').endswith('::front'):
+                return 'front'
+            if d.get('k') == 'var' and depth < 3:
+                defs = [x.get('init') for x in nf.events('decl') if x['n'] == d['n'] and x.get('init') is not None] + \
+                       [x.get('r') for x in nf.events('asg') if is_var(d['n'])(x['l']) and x.get('op') == '=']
+                kinds = {front_or_null(x, depth + 1) for x in defs}
+                return 'var' if defs and kinds <= {'null', 'front', 'var'} else False
+            return False
+        for e in nf.events('ret'):
+            ctx.check('C05.S1', bool(front_or_null(e.get('e'))), nf.name, 'NextFinished:returns-other', nf.where(e),
+                      'what NextFinished() returns is null or the front element of the queue (%s)' % dstr(e.get('e')))
+        # with a non-empty queue the front is taken (and popped) before the function returns; the stores of the front
+        # element are the ones paired with the pop
+        def nonempty_world(b2, i2, s2):
+            return not any(nonempty(a2) and p2 is True and isinstance(strip(a2), dict) and strip(a2).get('k') == 'call'
+                           for k2, p2, a2 in nf.edge_facts(b2, i2))
+        r = nf.find_path(None, lambda x: x['k'] == 'ret', from_succ=nf.entry, is_blocker=lambda x: x is pops[0], edge_ok=nonempty_world)
+        ctx.check('C05.S1', r is None, nf.name, 'NextFinished:finished-subprocess-not-handed-out', nf.loc,
+                  'with a non-empty queue NextFinished() pops before it returns', witness=None if r is None else {'blocks': r[0]})
     ctx.floor('C05.S1', 10)
 
 
